@@ -6,7 +6,7 @@ From TK Require Import QuadTree_Model QuadTree_Spec QuadTree_SpecExec QuadTree_P
                        QuadTree_Proof_Insert QuadTree_Proof_Main QuadTree_Proof_Forces
                        QuadTree_Proof_Fuel QuadTree_Proof_Spec QuadTree_Proof_Exec
                        QuadTree_Proof_Observers QuadTree_Proof_Order QuadTree_Proof_Order2
-                       QuadTree_Proof_Bound QuadTree_Proof_Gradient.
+                       QuadTree_Proof_Bound QuadTree_Proof_Gradient QuadTree_Proof_Dump.
 Import ListNotations.
 Local Open Scope Q_scope.
 
@@ -319,3 +319,27 @@ Lemma nonedge_loop_bound_final : forall fx fuel data order root ok t,
                 -(epsf theta * total_sq data order ns) <= s - (sq + total_sq data order ns) /\
                 s - (sq + total_sq data order ns) <= epsf theta * total_sq data order ns.
 Proof. exact nonedge_loop_bound_gen. Qed.
+
+(* ---------- the force clauses from the specification alone (any tree, e.g. the dump of the real one) ---------- *)
+
+Lemma spec_forces_final : forall data ins t,
+  spec data ins t -> NoCo data ins ->
+  forall i p, nth_error data i = Some p ->
+    (forall a, feq (forces_at p i 0 t a) (fadd a (exact_sums data p i ins))) /\
+    (forall theta, 0 <= theta -> 8 * (theta * theta) <= 1 ->
+       bound theta (forces_at p i theta t (0, 0, 0)) (exact_sums data p i ins)).
+Proof. exact spec_forces_gen. Qed.
+
+Lemma dump_forces_final : forall data ins t,
+  struct_okb data ins t = true -> NoCo data ins ->
+  forall i p, nth_error data i = Some p ->
+    (forall a, feq (forces_at p i 0 (recom data ins t) a) (fadd a (exact_sums data p i ins))) /\
+    (forall theta, 0 <= theta -> 8 * (theta * theta) <= 1 ->
+       bound theta (forces_at p i theta (recom data ins t) (0, 0, 0)) (exact_sums data p i ins)).
+Proof. exact dump_forces_gen. Qed.
+
+Lemma ex_dump : exists t, struct_okb ex_data2 ex_order2 t = true /\ NoCo ex_data2 ex_order2.
+Proof.
+  destruct ex_builds2 as (t & E). exists t. split; [|exact ex_noco2].
+  vm_compute in E. injection E as <-. vm_compute. reflexivity.
+Qed.
